@@ -438,12 +438,14 @@ func (db *DB) applyRequests(reqs []*request) (int, error) {
 		if r == nil || len(r.Entries) == 0 {
 			continue
 		}
-		if err := db.writeToLSM(r); err != nil {
-			return i, pkgerrors.Wrap(err, "writeRequests")
-		}
+		// Persist the value-log head before the WAL can hold pointers into a freshly
+		// rotated value-log file: recovery removes files above the highest head it knows.
 		db.Lock()
 		db.updateHead(r.Ptrs)
 		db.Unlock()
+		if err := db.writeToLSM(r); err != nil {
+			return i, pkgerrors.Wrap(err, "writeRequests")
+		}
 	}
 	return -1, nil
 }
